@@ -1020,6 +1020,11 @@ impl ExpressionTreeVisualizer {
 }
 
 pub fn create_timestamp(year: i32, month: u32, day: u32, hour: u32, minute: u32, second: u32, microsecond: u32) -> Option<TimestampType> {
+    // chrono accepts up to 1 999 999 microseconds when the second is 59 (a leap second), which would carry into the next second
+    if microsecond >= 1_000_000 {
+        return None;
+    }
+
     let timestamp = NaiveDateTime::new(
         NaiveDate::from_ymd_opt(year, month, day)?,
         NaiveTime::from_hms_micro_opt(hour, minute, second, microsecond)?
